@@ -104,8 +104,7 @@ def append_step(prog: Program, rep: Report) -> None:
                 ok_dom = "self.variables" in src and "'pid'" in src and ("-" in src or "!=" in src or "not in" in src)
     rep.check(rule, fi.qual, "concatenation loop covers set(variables) - {pid}", ok_dom, what_bad="the loop that extends the arrays must run over every state variable except pid (handled separately), each exactly once", what_ok="all variables but pid", loc=fi.loc())
     # every variable gets a value (default / nan) before broadcasting
-    src = unparse(fi.node)
-    rep.check(rule, fi.qual, "variables without value or default get NaN", "np.nan" in src and "self.default_values" in src, what_bad="a variable left without value would keep its old length", what_ok="defaults, then NaN", loc=fi.loc())
+    value_precedence(prog, rep, rule)
     # atomicity: every raise precedes the first store
     for p in enumerate_paths(fi.node.body):
         if p.exit != "raise":
@@ -125,34 +124,192 @@ def append_step(prog: Program, rep: Report) -> None:
     guards = bool(tests) and bool(raises) and min(t.lineno for t in tests) <= max(r.lineno for r in raises)
     rep.check(rule, fi.qual, "arguments outside set(variables) - {pid} are rejected", bool(guards), what_bad="a caller could pass pid=... and overwrite identifiers", what_ok="ValueError", loc=fi.loc())
 
+# ---------------------------------------------------------------------------
+# value precedence in State.append: arguments, then configured defaults, then NaN
+# ---------------------------------------------------------------------------
+_CLASSES = [(True, True), (True, False), (False, True), (False, False)]  # (name in args, name in defaults)
+
+
+class _PrecUnknown(Exception):
+    pass
+
+
+def _prec_eval(e: ast.expr, env: dict, args_name: str):
+    """Abstract dictionary: {class: source} with source in {"args", "default", "nan"} (absent keys
+    left out), for expressions built from the keyword arguments and self.default_values."""
+    txt = unparse(e)
+    if isinstance(e, ast.Name) and e.id == args_name:
+        return {c: "args" for c in _CLASSES if c[0]}
+    if txt == "self.default_values":
+        return {c: "default" for c in _CLASSES if c[1]}
+    if isinstance(e, ast.Name) and e.id in env:
+        return dict(env[e.id])
+    if isinstance(e, ast.Call):
+        fn = unparse(e.func)
+        if fn == "dict":
+            d: dict = {}
+            for a in e.args:
+                d.update(_prec_eval(a, env, args_name))
+            for kw in e.keywords:
+                if kw.arg is not None:
+                    raise _PrecUnknown(txt)
+                d.update(_prec_eval(kw.value, env, args_name))
+            return d
+        if fn == "dict.fromkeys" and len(e.args) == 2 and unparse(e.args[1]) in ("np.nan", "numpy.nan", "float('nan')", "math.nan"):
+            return {c: "nan" for c in _CLASSES}
+        if isinstance(e.func, ast.Attribute) and e.func.attr == "copy" and not e.args:
+            return _prec_eval(e.func.value, env, args_name)
+    if isinstance(e, ast.Dict):
+        d = {}
+        for k, v in zip(e.keys, e.values):
+            if k is not None:
+                raise _PrecUnknown(txt)
+            d.update(_prec_eval(v, env, args_name))
+        return d
+    if isinstance(e, ast.BinOp) and isinstance(e.op, ast.BitOr):
+        d = _prec_eval(e.left, env, args_name)
+        d.update(_prec_eval(e.right, env, args_name))
+        return d
+    if isinstance(e, ast.DictComp) and len(e.generators) == 1 and not e.generators[0].ifs and isinstance(e.key, ast.Name) and isinstance(e.generators[0].target, ast.Name) and e.key.id == e.generators[0].target.id:
+        # {name: <lookup chain>(name) for name in state_vars}
+        out = {}
+        for c in _CLASSES:
+            out[c] = _prec_lookup(e.value, e.key.id, c, env, args_name)
+        return out
+    raise _PrecUnknown(txt)
+
+
+def _prec_lookup(e: ast.expr, key: str, c, env: dict, args_name: str):
+    """Source of `X.get(key, fallback)` / `X[key] if key in X else ...` chains for a key of class c."""
+    if unparse(e) in ("np.nan", "numpy.nan", "float('nan')", "math.nan"):
+        return "nan"
+    if isinstance(e, ast.Call) and isinstance(e.func, ast.Attribute) and e.func.attr == "get" and e.args and unparse(e.args[0]) == key:
+        d = _prec_eval(e.func.value, env, args_name)
+        if c in d:
+            return d[c]
+        if len(e.args) == 2:
+            return _prec_lookup(e.args[1], key, c, env, args_name)
+        raise _PrecUnknown(unparse(e))
+    if isinstance(e, ast.IfExp) and isinstance(e.test, ast.Compare) and len(e.test.ops) == 1 and isinstance(e.test.ops[0], (ast.In, ast.NotIn)) and unparse(e.test.left) == key:
+        d = _prec_eval(e.test.comparators[0], env, args_name)
+        present = (c in d) ^ isinstance(e.test.ops[0], ast.NotIn)
+        return _prec_lookup(e.body if present else e.orelse, key, c, env, args_name)
+    if isinstance(e, ast.Subscript) and unparse(e.slice) == key:
+        d = _prec_eval(e.value, env, args_name)
+        if c in d:
+            return d[c]
+    raise _PrecUnknown(unparse(e))
+
+
+def value_precedence(prog: Program, rep: Report, rule: str) -> None:
+    """Which value a newly appended particle gets for a variable: the caller's, else the configured
+    default, else NaN - decided for the four classes (given / not given) x (has default / has none)."""
+    fi = prog.role_func("state", "append")
+    args_name = fi.node.args.kwarg.arg if fi.node.args.kwarg else None
+    if args_name is None:
+        raise AnalysisError("State.append: **keyword parameter not found")
+    # the dictionary whose values are broadcast
+    used = None
+    for n in walk_no_nested(fi.node):
+        if isinstance(n, ast.Call) and unparse(n.func) in ("np.broadcast", "np.broadcast_arrays") and n.args and isinstance(n.args[0], ast.Starred):
+            v = n.args[0].value
+            if isinstance(v, ast.Call) and isinstance(v.func, ast.Attribute) and v.func.attr == "values" and isinstance(v.func.value, ast.Name):
+                used = v.func.value.id
+    if used is None:
+        rep.add(rule, fi.qual, "value precedence", None, "the dictionary of values that is broadcast was not found", fi.loc())
+        return
+    env: dict = {}
+    try:
+        for st in fi.node.body:
+            if isinstance(st, (ast.Assign, ast.AnnAssign)) and st.value is not None:
+                t = st.targets[0] if isinstance(st, ast.Assign) else st.target
+                if isinstance(t, ast.Name):
+                    try:
+                        env[t.id] = _prec_eval(st.value, env, args_name)
+                    except _PrecUnknown:
+                        if t.id == used:
+                            raise
+                    continue
+            if isinstance(st, ast.Expr) and isinstance(st.value, ast.Call) and isinstance(st.value.func, ast.Attribute) and isinstance(st.value.func.value, ast.Name) and st.value.func.value.id in env:
+                d = env[st.value.func.value.id]
+                m = st.value.func.attr
+                if m == "update" and len(st.value.args) == 1 and not st.value.keywords:
+                    d.update(_prec_eval(st.value.args[0], env, args_name))
+                    continue
+                if m == "update" and not st.value.args and all(k.arg is None for k in st.value.keywords):
+                    for k in st.value.keywords:
+                        d.update(_prec_eval(k.value, env, args_name))
+                    continue
+                if st.value.func.value.id == used:
+                    raise _PrecUnknown(short(st))
+            if isinstance(st, ast.For) and isinstance(st.target, ast.Name):
+                key = st.target.id
+                for b in st.body:
+                    # if name not in D: D[name] = nan      |  D.setdefault(name, nan)
+                    if isinstance(b, ast.If) and isinstance(b.test, ast.Compare) and isinstance(b.test.ops[0], ast.NotIn) and unparse(b.test.left) == key and isinstance(b.test.comparators[0], ast.Name) and b.test.comparators[0].id in env and not b.orelse:
+                        d = env[b.test.comparators[0].id]
+                        for x in b.body:
+                            if isinstance(x, ast.Assign) and isinstance(x.targets[0], ast.Subscript) and unparse(x.targets[0].value) == b.test.comparators[0].id and unparse(x.targets[0].slice) == key:
+                                for c in _CLASSES:
+                                    if c not in d:
+                                        d[c] = _prec_lookup(x.value, key, c, env, args_name)
+                    elif isinstance(b, ast.Expr) and isinstance(b.value, ast.Call) and isinstance(b.value.func, ast.Attribute) and b.value.func.attr == "setdefault" and isinstance(b.value.func.value, ast.Name) and b.value.func.value.id in env and len(b.value.args) == 2 and unparse(b.value.args[0]) == key:
+                        d = env[b.value.func.value.id]
+                        for c in _CLASSES:
+                            if c not in d:
+                                d[c] = _prec_lookup(b.value.args[1], key, c, env, args_name)
+                    elif isinstance(b, ast.Assign) and isinstance(b.targets[0], ast.Subscript) and isinstance(b.targets[0].value, ast.Name) and b.targets[0].value.id == used:
+                        raise _PrecUnknown(short(b))
+            if any(isinstance(x, ast.Call) and unparse(x.func) in ("np.broadcast", "np.broadcast_arrays") for x in ast.walk(st)):
+                break
+    except _PrecUnknown as e:
+        rep.add(rule, fi.qual, "value precedence", None, f"dictionary construction outside the evaluator: {e}", fi.loc())
+        return
+    d = env.get(used)
+    if d is None:
+        rep.add(rule, fi.qual, "value precedence", None, f"{used} is not built from the arguments and defaults in a form the evaluator reads", fi.loc())
+        return
+    want = {(True, True): "args", (True, False): "args", (False, True): "default", (False, False): "nan"}
+    names = {(True, True): "given by the caller, default configured", (True, False): "given by the caller, no default", (False, True): "not given, default configured", (False, False): "neither given nor defaulted"}
+    for c in _CLASSES:
+        got = d.get(c, "no value")
+        rep.check(rule, fi.qual, f"value of a variable {names[c]}", got == want[c], what_bad=f"new particles get the {got} value, must be the {want[c]} value: " + ("released rows lose their column values" if c[0] else "the variable keeps its old length or a wrong fill"), what_ok=f"{want[c]} value", loc=fi.loc())
+
 
 def compactify_step(prog: Program, rep: Report) -> None:
     rule = "R05.3"
     fi = prog.role_func("state", "compactify")
-    loops = [n for n in walk_no_nested(fi.node) if isinstance(n, ast.For)]
-    if len(loops) != 1:
-        raise AnalysisError(f"State.compactify: expected one loop, found {len(loops)}")
-    loop = loops[0]
-    it_src = unparse(loop.iter)
-    rep.check(rule, fi.qual, f"loop over {it_src}", it_src in ("self.instance_variables", "sorted(self.instance_variables)", "list(self.instance_variables)"), what_bad="dead particles must be removed from the instance variables and from nothing else (particle variables are indexed by pid)", what_ok="instance variables only", loc=fi.loc(loop))
-    var = unparse(loop.target)
-    stores = [n for n in loop.body if isinstance(n, ast.Assign)]
-    ok = len(stores) == 1 and len(loop.body) == 1
-    mask_name = None
-    if ok:
-        st = stores[0]
-        t, v = st.targets[0], st.value
-        ok = unparse(t) == f"self.variables[{var}]" and isinstance(v, ast.Subscript) and unparse(v.value) == f"self.variables[{var}]" and isinstance(v.slice, ast.Name)
+    loops = [n for n in walk_no_nested(fi.node) if isinstance(n, ast.For) and any(isinstance(x, ast.Subscript) and isinstance(x.ctx, ast.Store) and unparse(x.value) == "self.variables" for x in ast.walk(n))]
+    if not loops:
+        raise AnalysisError("State.compactify: no loop storing into self.variables found")
+    all_stores = []
+    for loop in loops:
+        it_src = unparse(loop.iter)
+        rep.check(rule, fi.qual, f"loop over {it_src}", it_src in ("self.instance_variables", "sorted(self.instance_variables)", "list(self.instance_variables)"), what_bad="dead particles must be removed from the instance variables and from nothing else (particle variables are indexed by pid and keep their length)", what_ok="instance variables only", loc=fi.loc(loop))
+        var = unparse(loop.target)
+        stores = [n for n in loop.body if isinstance(n, ast.Assign)]
+        all_stores += stores
+        ok = len(stores) == 1 and len(loop.body) == 1
+        mask_name = None
         if ok:
-            mask_name = v.slice.id
-    rep.check(rule, fi.qual, "body: variables[var] = variables[var][mask] with one mask name", ok, what_bad=f"body is {[short(b) for b in loop.body]}: each array must be filtered by boolean indexing with the same mask (order-preserving)", what_ok=f"mask `{mask_name}`", loc=fi.loc(loop))
-    if mask_name:
-        defs = [n for n in walk_no_nested(fi.node) if isinstance(n, ast.Assign) and unparse(n.targets[0]) == mask_name]
-        before = [d for d in defs if d.lineno < loop.lineno]
-        inside = [d for d in defs if d.lineno >= loop.lineno]
-        src = unparse(before[-1].value) if before else ""
-        derived = src in ("self.alive.copy()", "self.alive", "self.variables['alive'].copy()", "self.variables['alive']", "self['alive'].copy()", "self['alive']", "np.array(self.alive)", "self.alive.astype(bool)")
-        rep.check(rule, fi.qual, f"mask `{mask_name}` = alive, bound before the loop, not rebound inside", bool(before) and derived and not inside, what_bad=f"mask defined as `{src}` (rebinding inside the loop: {len(inside)}): all arrays must be filtered with the *same* alive mask taken before any array is shortened", what_ok=src, loc=fi.loc())
+            st = stores[0]
+            t, v = st.targets[0], st.value
+            ok = unparse(t) == f"self.variables[{var}]" and isinstance(v, ast.Subscript) and unparse(v.value) == f"self.variables[{var}]" and isinstance(v.slice, ast.Name)
+            if ok:
+                mask_name = v.slice.id
+        emptying = len(stores) == 1 and len(loop.body) == 1 and unparse(stores[0].targets[0]) == f"self.variables[{var}]" and (unparse(stores[0].value).startswith(("np.array([]", "np.empty(0", "np.zeros(0")) or unparse(stores[0].value) == f"self.variables[{var}][:0]")
+        if emptying and len(loops) > 1:
+            rep.add(rule, fi.qual, f"body of the loop over {it_src}: arrays emptied", None, "an emptying fast path: correct only under a guard that no particle is alive (not decided)", fi.loc(loop))
+            continue
+        rep.check(rule, fi.qual, f"body of the loop over {it_src}: variables[var] = variables[var][mask] with one mask name", ok, what_bad=f"body is {[short(b) for b in loop.body]}: each array must be filtered by boolean indexing with the same mask (order-preserving)", what_ok=f"mask `{mask_name}`", loc=fi.loc(loop))
+        if mask_name:
+            defs = [n for n in walk_no_nested(fi.node) if isinstance(n, ast.Assign) and unparse(n.targets[0]) == mask_name]
+            before = [d for d in defs if d.lineno < loop.lineno]
+            inside = [d for d in defs if d.lineno >= loop.lineno]
+            src = unparse(before[-1].value) if before else ""
+            derived = src in ("self.alive.copy()", "self.alive", "self.variables['alive'].copy()", "self.variables['alive']", "self['alive'].copy()", "self['alive']", "np.array(self.alive)", "self.alive.astype(bool)")
+            rep.check(rule, fi.qual, f"mask `{mask_name}` = alive, bound before the loop, not rebound inside", bool(before) and derived and not inside, what_bad=f"mask defined as `{src}` (rebinding inside the loop: {len(inside)}): all arrays must be filtered with the *same* alive mask taken before any array is shortened", what_ok=src, loc=fi.loc())
+    stores = all_stores
     # nothing else is stored
     others = [w for w in statefx.state_writes(prog) if w.fi.qual == fi.qual and w.node not in stores]
     rep.check(rule, fi.qual, "no other store to the state", not others, what_bad=f"also writes {[short(w.node) for w in others]}", what_ok="none", loc=fi.loc())
@@ -255,6 +412,11 @@ ST = "ladim/state.py"
 TR = "ladim/tracker.py"
 ON = "ladim/out_netcdf.py"
 AUDIT = [
+    Mut("defaults-override-arguments", ST, "        value_vars: dict[str, Any] = dict(self.default_values, **args)\n        for name in state_vars:\n            if name not in value_vars:\n                value_vars[name] = np.nan\n", "        value_vars: dict[str, Any] = dict.fromkeys(state_vars, np.nan)\n        value_vars.update(args)\n        value_vars.update(self.default_values)\n", rule="R05.2"),
+    Mut("no-nan-fill", ST, "        value_vars: dict[str, Any] = dict(self.default_values, **args)\n        for name in state_vars:\n            if name not in value_vars:\n                value_vars[name] = np.nan\n", "        value_vars: dict[str, Any] = dict(self.default_values, **args)\n", rule="R05.2"),
+    Mut("benign-precedence-by-update", ST, "        value_vars: dict[str, Any] = dict(self.default_values, **args)\n        for name in state_vars:\n            if name not in value_vars:\n                value_vars[name] = np.nan\n", "        value_vars: dict[str, Any] = dict.fromkeys(state_vars, np.nan)\n        value_vars.update(self.default_values)\n        value_vars.update(args)\n", expect="silent"),
+    Mut("benign-precedence-by-comprehension", ST, "        value_vars: dict[str, Any] = dict(self.default_values, **args)\n        for name in state_vars:\n            if name not in value_vars:\n                value_vars[name] = np.nan\n", "        value_vars: dict[str, Any] = {name: args.get(name, self.default_values.get(name, np.nan)) for name in state_vars}\n", expect="silent"),
+    Mut("extinction-wipes-particle-variables", ST, "        if n_remove > 0:\n", "        if n_particles > 0 and n_alive == 0:\n            for var, dtype in self.dtypes.items():\n                self.variables[var] = np.array([], dtype)\n        elif n_remove > 0:\n", rule="R05.3"),
     Mut("pid-from-len", ST, "np.arange(self.npid, self.npid + num_new_particles, dtype=int),", "np.arange(len(self), len(self) + num_new_particles, dtype=int),", rule="R05.2"),
     Mut("npid-not-advanced", ST, "        self.npid = self.npid + num_new_particles\n", "", rule="R05.2"),
     Mut("npid-advanced-by-one", ST, "        self.npid = self.npid + num_new_particles\n", "        self.npid = self.npid + 1\n", rule="R05.2"),
